@@ -62,16 +62,18 @@ pub async fn read_saved_target_env_state(target: &TargetMetadata) -> Option<Targ
 
 pub async fn delete_saved_env_state(target: &TargetMetadata) -> Result<()> {
     let checksums_file = get_checksums_file_path(target);
-    if checksums_file.exists().await {
-        fs::remove_file(&checksums_file).await.with_context(|| {
+    // No prior existence check: `exists()` also answers false when the file cannot be examined,
+    // and a record that survives here would outlive a failed build.
+    match fs::remove_file(&checksums_file).await {
+        Ok(()) => Ok(()),
+        Err(e) if e.kind() == std::io::ErrorKind::NotFound => Ok(()),
+        Err(e) => Err(e).with_context(|| {
             format!(
                 "Failed to delete checksums file {}",
                 checksums_file.display()
             )
-        })?;
+        }),
     }
-
-    Ok(())
 }
 
 pub async fn save_env_state(target: &TargetMetadata, env_state: TargetEnvState) -> Result<()> {
